@@ -46,12 +46,12 @@ PROPS["C01"] = {
     "level_text": ("generated operation sequences (append batches, replicated message-set appends, truncations at selected offsets, close/reopen with a "
                    "different segment size, HW moves, reader probes) on a real on-disk commit log, compared after EVERY step with an in-memory "
                    "reference model: returned offsets, Newest/Oldest/HW, a full read-back with byte-equal key/value/headers/timestamp/epoch, "
-                   "committed and uncommitted readers from selected starts, segment files and their sizes, epoch-cache invariants"),
+                   "committed and uncommitted readers from selected starts, long-lived committed readers that stay parked across later appends, rolls and HW moves (created at, below or beyond the HW, also on an empty log) and must continue without a gap or duplicate, segment files and their sizes, epoch-cache invariants"),
     "level_note": "sequential histories only (concurrency is C03); trusts the file system; timestamps/epochs non-decreasing and reader starts >= 0 as every caller produces them; truncation never below the HW",
     "rule": ("rapid draws max segment bytes from {1,64,150,300,1024,65536,default} and 1-40 (thorough 1-120) ops: append(1-8 msgs; key nil/empty/short/300B, "
              "value nil/empty/5B-2KiB/70KiB, headers nil/empty/1-3 with empty/short/1100B values, equal or increasing timestamps, epoch bumps), appendset "
              "(1-6 msgs encoded as a follower receives them), truncate(class: any/inside batch/segment base+-1/batch start/beyond end), reopen(optionally new "
-             "segment size), sethw, probe(start class, committed or not). Non-trivial = the case rolled at least one segment AND contains one of: truncate "
+             "segment size), sethw, probe(start class, committed or not), newreader/read (parked committed readers; dropped at a truncate or reopen). Non-trivial = the case rolled at least one segment AND contains one of: truncate "
              "strictly inside a batch, truncate at a segment base, reopen after a truncate, message-set append that rolled, probe starting at/inside a "
              "non-first segment. distinct = SHA-1 of the case encoding."),
     "assumptions": TRUST + ["process keeps running (crashes are C05)", "no compaction/retention in this flavour (C08/C09)"],
@@ -84,7 +84,7 @@ PROPS["C08"] = {
     "level_text": ("generated key patterns (nil, empty, 4 short keys, a 200-byte key, runs of one key), 2-30 segments, HW anywhere, 1/2/4/10 compaction workers, "
                    "repeated cleans with HW moves and appends in between, optionally with retention limits; oracle: Must (keyless, >=HW, newest segment, latest "
                    "committed per key) is a subset of the survivors, survivors are a subset of the log before, unchanged and ordered; then forward uncommitted, "
-                   "forward committed and reverse committed readers from every start offset return exactly the survivors in range"),
+                   "forward committed and reverse committed readers from every start offset return exactly the survivors in range; committed readers that have already delivered part of the log stay parked across the cleans (also cleans that replace the segment they are in, with appends during the clean) and must continue with the next survivor, once"),
     "level_note": "empty-but-non-nil keys are generated although only the commit-log API can store them; compaction concurrent with appends only in the thorough -race unit",
     "rule": ("rapid draws max segment bytes from {1,64,150,300,1024}, 1-3 rounds of (appends of 1-4 keyed messages with run-length bias, HW moves, optional reopen, a "
              "compacting Clean() with generated worker count, 0-2 repeat cleans). Non-trivial = a compaction over >=3 segments with the HW strictly inside the log "
@@ -99,7 +99,7 @@ PROPS["C08"] = {
 PROPS["C10"] = {
     "level": "exploration",
     "technique": "property-based testing (rapid): log shape x subscription request products against a reference function over the surviving messages",
-    "level_text": 'log shape x request products: (a) package level: committed/uncommitted forward readers and committed reverse readers from every start offset, and both timestamp lookups, on dense, compacted, retention-trimmed logs with an empty active segment, any HW, read-only on/off, against a reference model; (b) through the real partition.Subscribe on a bare server: every start position x stop position x direction, timestamps at/between/outside message times, HW below the end, read-only, messages committed after the subscription started, against a reference function over the surviving messages',
+    "level_text": 'log shape x request products: (a) package level: committed/uncommitted forward readers and committed reverse readers from every start offset, and both timestamp lookups, on dense, compacted, retention-trimmed logs with an empty active segment, any HW, read-only on/off, against a reference model, plus committed readers parked across cleans (a subscription that is being served while its segment is compacted or trimmed); (b) through the real partition.Subscribe on a bare server: every start position x stop position x direction, timestamps at/between/outside message times, HW below the end, read-only, messages committed after the subscription started, against a reference function over the surviving messages',
     "level_note": "start offsets beyond the HW are positioned at HW+1 (pinned by TestSubscribeOffsetOverflow); negative stop offsets are not generated (-1 is the API's no-stop sentinel); reverse subscriptions must end but their end status is undocumented and not compared; an empty finite range may end at once or wait for the next commit",
     "rule": 'rapid draws the shape (0-24 messages with 3 keys, timestamp deltas {0,1,10,100}, segment size {1,150,300,1000,1MiB}, HW = newest-{0,1,2,5,all}, optional compacting clean, optional message-retention clean, read-only) and the request (5 start positions x 4 stop positions x 2 directions, offset/timestamp selectors resolved against the shape, 0-4 messages committed after subscribing). Non-trivial = a sparse or trimmed log or HW below the end, combined with a start/stop on a removed offset, a timestamp position or the reverse direction. Labels give the shape x request table.',
     "assumptions": TRUST,
@@ -255,13 +255,13 @@ PROPS["C11"] = {
 
 PROPS["C07"] = {
     "level": "exploration",
-    "technique": "model-based stateful property testing (rapid): leader reports / ISR changes / leadership losses against a reference model of the documented quorum rule, invariants after every request",
+    "technique": "model-based stateful property testing (rapid) + bounded-exhaustive enumeration of short request sequences: leader reports / ISR changes / leadership losses against a reference model of the documented quorum rule, invariants after every request",
     "level_text": ("sequences of ReportLeader (from any follower, in or out of the ISR, with current or stale (leader, epoch)), ShrinkISR/ExpandISR of followers (current or stale pair), "
                    "controller leadership losses and, in a 40 ms regime, waits past the expiry timer, against the real metadataAPI of a started single-node controller (real Raft, real FSM); "
                    "model: a leader change happens at a report iff more than half of the in-sync followers have reported the current (leader, epoch) since the last change/expiry/reset; "
-                   "after every request: stale pairs are refused without effect, the new leader comes from the ISR and is not the old one, leader in ISR subset of replicas, epochs only grow, one leader per leader epoch"),
+                   "after every request: stale pairs are refused without effect, the new leader comes from the ISR and is not the old one, leader in ISR subset of replicas, epochs only grow, one leader per leader epoch. Unit C07exh runs EVERY sequence of up to 4 (thorough: 5) requests over a 12-letter alphabet on a 3-replica partition (report by replica 0-2 with the current or a stale epoch, report naming a wrong leader, shrink/expand of either follower, controller leadership loss) through the same executor and oracle"),
     "level_note": "replicas are foreign ids (this server is the controller only); the 40 ms regime discards (inconclusive) cases in which an 'immediate' step took >20 ms instead of guessing which side of the timer it fell on",
-    "rule": "rapid draws 3 or 5 replicas, the timer regime and 3-30 requests. Non-trivial = a completed failover followed by further reports, an ISR change between two reports of one round, a report from a replica outside the ISR, or a timer expiry between reports.",
+    "rule": "rapid draws 3 or 5 replicas, the timer regime and 3-30 requests. Non-trivial = a completed failover followed by further reports, an ISR change between two reports of one round, a report from a replica outside the ISR, or a timer expiry between reports. C07exh: 22,620 sequences (quick) / 271,452 (thorough), complete for its alphabet and length bound.",
     "assumptions": TRUST,
     "units": [
         {"name": "C07", "pkg": "server", "test": "TestVerifC07",
